@@ -457,7 +457,7 @@ theorem call_refines (c : Cfg) (hw : 0 < c.w) (hr : 0 < c.r) (hr25 : c.r ≤ 25 
   obtain ⟨Z', hq1, hq2, hq3⟩ := squeezeLoop_refines c hw c.r hr hr25 hf d d A' Z0 hz2 (by omega)
   have hr0 : ¬ c.r = 0 := by omega
   have ha1' : absorb c (zero c.w) blocks = toLanes A' := by rw [zero_eq]; exact ha1
-  simp only [call, hr0, if_false, hb1, bind, Except.bind, ha1', hz1, hout, hq1, pure, Except.pure]
+  simp only [call, callAt, hr0, if_false, hb1, bind, Except.bind, ha1', hz1, hout, hq1, pure, Except.pure]
   congr 1
   rw [pack_spec _ (sliceClip_WF _ _ _), bitsOf_sliceClip, List.drop_zero, hq3, hz4]
   congr 1
